@@ -52,7 +52,7 @@ def reference(prog: Program, knobs: Any, seed: int) -> dict[str, Any]:
                 "counts": ledger_counts(w), "views": views_by_task(w.ledger),
                 "commits": w.commit_count, "client_commits": ex.eng.client_commits,
                 "always": always_on(h, prog, fs, res.quiescent), "sim_us": w.clock.us,
-                "commit_ctx": [c.ctx for c in w.commits], "errors": list(res.handler_errors)}
+                "commit_ctx": [c.ctx for c in w.commits], "errors": list(res.handler_errors), "h": h}
     finally:
         ex.close()
 
